@@ -247,6 +247,32 @@ func streamKeys(c *ctx) {
 			if (verr == nil) != (name != "compressed-other-sign") {
 				fail("key-encoding", "an encoding of a public EC2 key does not behave like the fixed-length one ("+name+")", line+"|"+describe(v), verr, "same verification result")
 			}
+			// what the library emits for a public key given in a fixed-length form (ToPublicKey, Verifier.Key, the key set of the
+			// verifier): every coordinate it writes as a byte string has the curve's length, and the point is the same
+			if name == "fixed" || name == "compressed" || name == "compressed-other-sign" {
+				emitted := map[string]key.Key{"Verifier.Key": ver.Key()}
+				if tp, err := ecdsa.ToPublicKey(v); err == nil {
+					emitted["ToPublicKey"] = tp
+				} else {
+					fail("key-public", "ToPublicKey refuses a public key ("+name+")", line+"|"+describe(v), err, "the public key")
+				}
+				if ks := (key.Verifiers{ver}).KeySet(); len(ks) == 1 {
+					emitted["Verifiers.KeySet"] = ks[0]
+				}
+				for en, ek := range emitted {
+					for _, l := range []int{iana.EC2KeyParameterX, iana.EC2KeyParameterY} {
+						if b, err := ek.GetBytes(l); err == nil && ek.Has(l) && len(b) != a.size {
+							fail("key-public", fmt.Sprintf("%s of a public key (%s) emits a coordinate that is not fixed-length", en, name), line+"|"+describe(v)+" => "+describe(ek), len(b), a.size)
+						}
+					}
+					if ek.Has(iana.EC2KeyParameterD) {
+						fail("key-public", en+" of a public key holds a private parameter", line, describe(ek), "no d")
+					}
+					if ep, err := ecdsa.KeyToPublic(ek); err != nil || ep.X.Cmp(ov.px) != 0 || ep.Y.Cmp(ov.py) != 0 {
+						fail("key-public", fmt.Sprintf("%s of a public key (%s) does not denote the same point", en, name), line+"|"+describe(ek), err, "the same point")
+					}
+				}
+			}
 			gp, err := ecdsa.KeyToPublic(v)
 			if err != nil || (name != "compressed-other-sign" && (gp.X.Cmp(priv.X) != 0 || gp.Y.Cmp(priv.Y) != 0)) {
 				fail("key-convert", "KeyToPublic does not return the point the key denotes ("+name+")", line, fmt.Sprint(gp, err), "the point")
